@@ -172,6 +172,9 @@ class WebsocketSession(object):
 
     def _connect_proxy(self, proxy_url):
         """Connect to a http proxy, return socket."""
+        if '://' not in proxy_url:
+            # "host:port", the usual form in the http_proxy variable
+            proxy_url = 'http://' + proxy_url
         _proxy_url = urlparse(proxy_url)
         _port = (
             int(_proxy_url.port)
